@@ -112,6 +112,26 @@ def emit (s : WState) (enc : Option EncState) (bs : Bytes)
   | some e => k (some { e with buffer := e.buffer ++ bs })
   | none => io s (M.writeAll bs) fun _ => k none
 
+/-- `w.finish()?` on the encoder `switch_to` replaces: its output goes to the encryption buffer or to
+the sink.  When the sink write fails, `?` returns the error and the encoder is dropped on the error
+path: flate2's `DeflateEncoder` and bzip2's `BzEncoder` then call `finish` once more from their
+destructor (`let _ = self.finish()`) — one more write of the SAME bytes, result ignored (with a
+single-shot fault it succeeds and the bytes reach the sink after all); zstd's encoder has no such
+destructor.  On a fault-free sink this is `emit`. -/
+def emitFinish (s : WState) (m : Method) (enc : Option EncState) (bs : Bytes)
+    (k : Option EncState → M (Except ZErr β × WState)) : M (Except ZErr β × WState) :=
+  match enc with
+  | some e => k (some { e with buffer := e.buffer ++ bs })
+  | none => do
+    let r ← M.attempt (M.writeAll bs)
+    match r with
+    | .ok _ => k none
+    | .error e =>
+      if m == .deflated || m == .bzip2 then do
+        let _ ← M.attempt (M.writeAll bs)
+        pure (.error e, s)
+      else pure (.error e, s)
+
 /-- `GenericZipWriter::switch_to` -/
 def switchTo (ext : WExt) (compression : Method) (level : Option Int) : Step Unit := fun s =>
   match s.inner.currentCompression with
@@ -138,8 +158,9 @@ def switchTo (ext : WExt) (compression : Method) (level : Option Int) : Step Uni
     | .closed => pure (.error (.io .brokenPipe), s0)
     | .storer enc => cont enc
     | .compressor m l enc pending =>
-      -- `w.finish()?`: the encoder's output goes to the sink (or the encryption buffer)
-      emit s0 enc (ext.compress m l pending) cont
+      -- `w.finish()?`: the encoder's output goes to the sink (or the encryption buffer); a failed
+      -- write is retried once by the destructor of a Deflate / Bzip2 encoder
+      emitFinish s0 m enc (ext.compress m l pending) cont
 
 /-- `ZipWriter::end_extra_data` (the `u64` result is `data_start`). -/
 def validateExtraDataLoop : (fuel : Nat) → Bytes → Except ZErr Unit
